@@ -321,7 +321,11 @@ def _site(redirect_code=302):
                                           '/priv/secret.html', '/dir/r', '/dir/big.zip',
                                           '/dir/r2', 'https://a.test/dir/tls.html'],
                                 'reqs': ['http://b.test/img.png']},
-            '/dir/a.html': {'links': ['/dir/../up.html', 'http://c.test/']},
+            '/dir/a.html': {'links': ['/dir/../up.html', 'http://c.test/',
+                                      '/dir/%2e%2e/priv/secret3.html', '/dir/x/.%2E/%2e./up2.html',
+                                      'http://b.test./forbidden2', '/dir/%2e/a2.html']},
+            '/priv/secret3.html': {'links': []}, '/up2.html': {'links': []},
+            '/dir/a2.html': {'links': []},
             '/dir/r': {'redirect': [redirect_code, 'http://b.test/landing']},
             '/dir/r2': {'redirect': [redirect_code, '/priv/secret2.html']},
             '/priv/secret.html': {'links': []}, '/priv/secret2.html': {'links': []},
@@ -330,6 +334,7 @@ def _site(redirect_code=302):
         'b.test': {'/forbidden': {'links': []}, '/landing': {'links': ['http://b.test/deep']},
                    '/deep': {'links': []}, '/img.png': {'body': 'PNG', 'ctype': 'image/png'}},
         'c.test': {'/': {'links': []}},
+        'b.test.': {'/forbidden2': {'links': []}},
     }}
 
 
@@ -349,6 +354,10 @@ E2E = {
                                  domains=['a.test', 'b.test'], reject_regex='secret'), 302,
                 True),
     'l1-302': (['-r', '-l', '1'], dict(recursive=True, level=1), 302, True),
+    'exh-span-302': (['-r', '--span-hosts', '--exclude-hostnames', 'b.test', '--exclude-domains',
+                      'c.test'], dict(recursive=True, span_hosts=True,
+                                      exclude_hostnames=['b.test'], exclude_domains=['c.test']),
+                     302, True),
     'exh-307': (['-r', '--exclude-hostnames', 'b.test'],
                 dict(recursive=True, exclude_hostnames=['b.test']), 307, True),
     'rej-301': (['-r', '--reject-regex', 'landing|secret2'],
